@@ -1935,6 +1935,11 @@ private:
     cuckoohash_map new_map(hashsize(new_hp) * slot_per_bucket(),
                            hash_function(), key_eq(), get_allocator());
     new_map.max_num_worker_threads(max_num_worker_threads());
+    // The temporary map must not apply the default minimum load factor to the
+    // expansions nested in this rebuild: an explicit rehash/reserve never
+    // throws load_factor_too_low, and an automatic one obeys this map's setting.
+    new_map.minimum_load_factor(AUTO_RESIZE::value ? minimum_load_factor()
+                                                   : 0.0);
 
     parallel_exec(
         0, hashsize(hp),
